@@ -63,14 +63,43 @@ func vReq(ip string, hdrVal string, hasHdr bool) *httpprot.Request {
 
 var vReqSeq int
 
+// vListOf: the list a balancer selects from, whatever its concrete type (all balancers of the
+// package embed BaseLoadBalancer); the harness never demands a particular type.
+type vBalancerView struct {
+	LoadBalancer
+	Servers []*Server
+}
+
+func vListOf(lb LoadBalancer) *vBalancerView {
+	v := &vBalancerView{LoadBalancer: lb}
+	switch x := lb.(type) {
+	case *roundRobinLoadBalancer:
+		v.Servers = x.Servers
+	case *randomLoadBalancer:
+		v.Servers = x.Servers
+	case *WeightedRandomLoadBalancer:
+		v.Servers = x.Servers
+	case *ipHashLoadBalancer:
+		v.Servers = x.Servers
+	case *headerHashLoadBalancer:
+		v.Servers = x.Servers
+	default:
+		verifAssume(false) // a balancer type this harness cannot look into: nothing claimed
+	}
+	return v
+}
+
 // verifC04_RoundRobin: after k selections from any counter start, every server
 // was chosen floor(k/n) or ceil(k/n) times.
 func verifC04_RoundRobin() {
 	n := verifChoose("n", verifBound("maxServers")) + 1
 	servers := vMakeServers(n, false)
 	lb := NewLoadBalancer(&LoadBalanceSpec{Policy: LoadBalancePolicyRoundRobin}, servers)
-	rr := lb.(*roundRobinLoadBalancer)
-	rr.counter = vCounterStart()
+	// white-box strengthening, not a demand: where the balancer is the counter-based one, the
+	// counter starts anywhere (wrap-around included)
+	if rr, ok := lb.(*roundRobinLoadBalancer); ok {
+		rr.counter = vCounterStart()
+	}
 	k := verifChoose("k", verifBound("maxSelections")+1)
 	var counts [8]int
 	for i := 0; i < k; i++ {
@@ -257,7 +286,7 @@ func verifC04_Service() {
 			instances, tagged = nil, 0
 		}
 		sp.useService(instances)
-		lb := sp.LoadBalancer().(*roundRobinLoadBalancer)
+		lb := vListOf(sp.LoadBalancer())
 		if tagged == 0 {
 			verifAssert(len(lb.Servers) == 2 && vIndexOf(lb.Servers, static[0]) >= 0 && vIndexOf(lb.Servers, static[1]) >= 0, "fallback-to-static-list")
 			verifCover("fallback")
@@ -315,10 +344,11 @@ func verifC04_Conc() {
 	sp := &ServerPool{spec: &ServerPoolSpec{Servers: servers, LoadBalance: &LoadBalanceSpec{Policy: LoadBalancePolicyRoundRobin}}}
 	verifInitMaps(sp) // maps a bypassed constructor would have made
 	sp.createLoadBalancer(servers)
-	rr := sp.LoadBalancer().(*roundRobinLoadBalancer)
 	bases := []uint64{0, 1<<32 - 1, 1<<62 + 1}
-	rr.counter = bases[verifChoose("counterBase", 3)]
-	verifRaceScopeDeep(rr, "roundRobinLoadBalancer")
+	if rr, ok := sp.LoadBalancer().(*roundRobinLoadBalancer); ok {
+		rr.counter = bases[verifChoose("counterBase", 3)]
+		verifRaceScopeDeep(rr, "roundRobinLoadBalancer")
+	}
 	verifRaceScopeDeep(sp, "ServerPool")
 	threads := verifBound("threads")
 	per := verifBound("selectionsPerThread")
